@@ -300,3 +300,33 @@ fn c16_offs_intersect_sparse_sparse_twoptr() {
     std::mem::forget(s);
     std::mem::forget(pool);
 }
+
+/// Subset::add_row_sorted, the two arms that keep the dense representation (what every table scan that appends
+/// consecutive rows goes through): appending to an empty range yields exactly {row}; appending the row just past the end
+/// yields the old rows plus that row -- nothing else enters, nothing leaves, and the range stays well-formed.
+#[kani::proof]
+#[kani::unwind(4)]
+fn c16_offs_add_row_sorted_dense() {
+    let a0: u32 = kani::any();
+    let a1: u32 = kani::any();
+    let row: u32 = kani::any();
+    kani::assume(a0 <= a1 && a1 < 1000 && row < 1000);
+    // stay on the arms that do not allocate: empty range, or the row directly after the range
+    kani::assume(a0 == a1 || row == a1);
+    let mut s = Subset::Dense(OffsetRange::new(r(a0), r(a1)));
+    s.add_row_sorted(r(row));
+    let x: u32 = kani::any();
+    kani::assume(x <= 1000);
+    let expect = (a0 <= x && x < a1) || x == row;
+    match &s {
+        Subset::Dense(rg) => {
+            assert!(rg.start <= rg.end);
+            assert!((rg.start.rep() <= x && x < rg.end.rep()) == expect, "exactly the old rows plus the new one");
+            assert!(s.size() == (a1 - a0) as usize + 1);
+        }
+        Subset::Sparse(_) => assert!(false, "consecutive appends stay dense"),
+    }
+    kani::cover!(a0 == a1 && row != a0, "witness: first row of an empty range placed elsewhere");
+    kani::cover!(a0 < a1 && row == a1, "witness: extending a non-empty range");
+    std::mem::forget(s);
+}
